@@ -5,6 +5,7 @@
 //!   zz <i64> | uzz <u64> | vi.enc <i64> | vi.dec <hex> | vi.read <hex> | vi.cmp <hex> <hex>
 //!   blob.enc <hex> | blob.dec <hex> | blob.cmp <hex> <hex>
 //!   ser <val> | wr <val> <cursor> <extra> | de <kind> <cursor> <hexbuf> | cast <val> <kind>
+//!   key <kind,kind…> <search val,val…> <cell val,val…>      (B+tree key comparison, CellComparator)
 //!   pair <a> <b> | hash <val> | laws <v1> [<v2> [<v3> [<v4>]]]
 //! Values: `n`, `b:0|1`, `i:<i32>`, `I:<i64>`, `u:<u32>`, `U:<u64>`, `f:<f32 bits>`, `d:<f64 bits>`, `x:<hex|->`.
 use super::{Case, Engine, Tier};
@@ -18,6 +19,70 @@ use axmosdb::verif::value as hooks;
 use std::cmp::Ordering;
 
 pub struct ValueEngine;
+
+thread_local! {
+    /// lazily created comparator; its pager is backed by a scratch file that is unlinked right after creation
+    /// (the pager is only touched for overflow cells, which single keys of this size never are)
+    static KEYCMP: std::cell::RefCell<Option<hooks::KeyComparator>> = const { std::cell::RefCell::new(None) };
+}
+
+fn with_key_comparator<T>(f: impl FnOnce(&hooks::KeyComparator) -> T) -> T {
+    KEYCMP.with(|slot| {
+        let mut slot = slot.borrow_mut();
+        if slot.is_none() {
+            let nanos = std::time::SystemTime::now().duration_since(std::time::UNIX_EPOCH).unwrap().as_nanos() as u64;
+            let dir = std::env::temp_dir().join(format!("axv-c19-{}-{:x}", std::process::id(), nanos));
+            std::fs::create_dir_all(&dir).expect("scratch dir");
+            let kc = hooks::KeyComparator::new(dir.join("keys.db")).expect("scratch pager");
+            let _ = std::fs::remove_dir_all(&dir);
+            *slot = Some(kc);
+        }
+        f(slot.as_ref().unwrap())
+    })
+}
+
+fn io_class(e: &std::io::Error) -> &'static str {
+    let m = e.to_string();
+    if m.contains("Cannot compare null keys") {
+        "nullkey"
+    } else if e.kind() == std::io::ErrorKind::InvalidInput {
+        "build"
+    } else {
+        "io"
+    }
+}
+
+fn show_cmp_result(r: &std::io::Result<Ordering>) -> String {
+    match r {
+        Ok(o) => ord_name(*o).to_string(),
+        Err(e) => format!("err {}", io_class(e)),
+    }
+}
+
+impl ValueEngine {
+    fn exec_key(&mut self, ks: &str, tv: &str, cv: &str) -> String {
+        let kinds: Option<Vec<DataTypeKind>> = ks.split(',').map(parse_kind).collect();
+        let t: Option<Vec<DataType>> = tv.split(',').map(parse_value).collect();
+        let c: Option<Vec<DataType>> = cv.split(',').map(parse_value).collect();
+        let (Some(kinds), Some(t), Some(c)) = (kinds, t, c) else { return "bad-op".into() };
+        if kinds.is_empty() || t.len() != kinds.len() || c.len() != kinds.len() {
+            return "bad-op".into();
+        }
+        match with_key_comparator(|kc| kc.compare(&kinds, &t, &c)) {
+            Err(e) => format!("err {}", io_class(&e)),
+            Ok(r) => {
+                let r1 = show_cmp_result(&r.tuple_mode);
+                match r.bare_mode {
+                    Some(b) => {
+                        let r2 = show_cmp_result(&b);
+                        if r1 == r2 { r1 } else { format!("MODEDIFF tuple={} bare={}", r1, r2) }
+                    }
+                    None => r1,
+                }
+            }
+        }
+    }
+}
 
 fn ser_err(e: &SerializationError) -> &'static str {
     match e {
@@ -457,6 +522,10 @@ fn exec_line(line: &str) -> String {
 
 impl Engine for ValueEngine {
     fn exec(&mut self, line: &str) -> String {
+        let ws: Vec<&str> = line.split_whitespace().collect();
+        if let ["key", ks, tv, cv] = ws.as_slice() {
+            return self.exec_key(ks, tv, cv);
+        }
         exec_line(line)
     }
 
@@ -468,6 +537,7 @@ impl Engine for ValueEngine {
         gen_serialize(rng, scale, &mut cases);
         gen_cast(rng, scale, &mut cases);
         gen_compare(rng, scale, &mut cases);
+        gen_keys(rng, scale, &mut cases);
         cases
     }
 }
@@ -1254,6 +1324,93 @@ fn gen_compare(rng: &mut Rng, scale: u64, cases: &mut Vec<Case>) {
         let v = rand_value(rng);
         cases.push(Case::new(format!("hash {}", v), &["hash", "random", kind_tag(&v), "nt"]));
     }
+}
+
+fn kind_name_of(v: &str) -> &'static str {
+    match v.as_bytes()[0] {
+        b'n' => "null",
+        b'b' => "bool",
+        b'i' => "int",
+        b'I' => "bigint",
+        b'u' => "uint",
+        b'U' => "biguint",
+        b'f' => "float",
+        b'd' => "double",
+        _ => "blob",
+    }
+}
+
+fn same_kind_value(rng: &mut Rng, kind: &str, grid: &[String]) -> String {
+    let pool: Vec<&String> = grid.iter().filter(|v| kind_name_of(v) == kind).collect();
+    if !pool.is_empty() && rng.chance(2, 3) {
+        return (*rng.pick(&pool)).clone();
+    }
+    match kind {
+        "bool" => format!("b:{}", rng.below(2)),
+        "int" => format!("i:{}", rand_i64(rng) as i32),
+        "bigint" => format!("I:{}", rand_i64(rng)),
+        "uint" => format!("u:{}", rng.next_u64() as u32),
+        "biguint" => format!("U:{}", rand_i64(rng) as u64),
+        "float" => format!("f:{}", rand_f32_bits(rng)),
+        "double" => format!("d:{}", rand_f64_bits(rng)),
+        _ => format!("x:{}", hex_or_dash(&rand_blob(rng))),
+    }
+}
+
+/// Key comparison as the B+tree does it: every same-kind pair of the comparison grid as a single key, and random
+/// composite keys (so that alignment padding between key columns and "first difference decides" are exercised).
+fn gen_keys(rng: &mut Rng, scale: u64, cases: &mut Vec<Case>) {
+    let grid = compare_grid();
+    for a in &grid {
+        for b in &grid {
+            let (ka, kb) = (kind_name_of(a), kind_name_of(b));
+            if ka == kb && ka != "null" {
+                let t = format!("key-{}", ka);
+                cases.push(Case::new(format!("key {} {} {}", ka, a, b), &["key", "key-single", "grid", &t, "nt"]));
+            }
+        }
+    }
+    // kind mismatch / NULL keys are refused when the tuple is built
+    cases.push(Case::new("key int n i:1".into(), &["key", "key-refused", "nt"]));
+    cases.push(Case::new("key int i:1 I:1".into(), &["key", "key-refused", "nt"]));
+    cases.push(Case::new("key blob x:61 n".into(), &["key", "key-refused", "nt"]));
+    let kinds = ["bool", "int", "bigint", "uint", "biguint", "float", "double", "blob"];
+    for _ in 0..3000 * scale {
+        let n = 1 + rng.below(4) as usize;
+        let ks: Vec<&str> = (0..n).map(|_| *rng.pick(&kinds)).collect();
+        let a: Vec<String> = ks.iter().map(|k| same_kind_value(rng, k, &grid)).collect();
+        // the partner shares a prefix of columns, so that later columns get to decide
+        let share = rng.below(n as u64 + 1) as usize;
+        let b: Vec<String> = ks
+            .iter()
+            .enumerate()
+            .map(|(i, k)| {
+                if i < share {
+                    a[i].clone()
+                } else if rng.chance(1, 2) {
+                    related_value_same_kind(rng, &a[i], k, &grid)
+                } else {
+                    same_kind_value(rng, k, &grid)
+                }
+            })
+            .collect();
+        let t = if n == 1 { "key-single" } else { "key-composite" };
+        let st = format!("key-shared{}", share.min(3));
+        cases.push(Case::new(
+            format!("key {} {} {}", ks.join(","), a.join(","), b.join(",")),
+            &["key", t, &st, "random", "nt"],
+        ));
+    }
+}
+
+fn related_value_same_kind(rng: &mut Rng, a: &str, kind: &str, grid: &[String]) -> String {
+    for _ in 0..8 {
+        let r = related_value(rng, a);
+        if kind_name_of(&r) == kind {
+            return r;
+        }
+    }
+    same_kind_value(rng, kind, grid)
 }
 
 /// A value that is numerically equal or adjacent to `a` but of another kind / encoding where possible.
